@@ -151,6 +151,8 @@ func propConfig(id, verifDir string) PropConfig {
 		return PropConfig{Pkgs: []string{"./util", "./ytypes"}, ExtSpecs: ext}
 	case "C28":
 		return PropConfig{Pkgs: []string{"./protogen"}, ExtSpecs: ext}
+	case "C22", "C23":
+		return PropConfig{Pkgs: []string{"./gnmidiff"}, ExtSpecs: ext}
 	case "C11", "C20":
 		return PropConfig{Pkgs: []string{"./util", "./ytypes", "./ygot", "./gnmidiff"}, ExtSpecs: ext}
 	}
